@@ -10,6 +10,9 @@ CLAIMED = {
 CLAIMED["C10"] = dict(tech="exhaustive enumeration of the boundary product + property-based testing (rapid) against an exact math/big denotation oracle",
       text="Generated-input search: the full product of 13 scalar target formats x 14 source Go kinds x each kind's boundary value set is enumerated completely; random scalar, list and schema-typed (enum, bits, identityref, union, leafref) conversions are drawn on top. A successful conversion must denote exactly the source (big.Rat / text / truth value / element-wise); an error is always accepted.",
       note="decimal64 is float64 in the library: 'same number' means nearest float64. Strings outside strict decimal syntax and NaN/Inf sources carry no assertion for decimal64. One open known finding (float64 -> string rounding, pinned by the suite).", ref="7 C10")
+CLAIMED["C14"] = dict(tech="property-based testing (rapid) + enumeration of all truncation points + structured hostile-input families, in crash-isolated worker processes; native go fuzzing in the thorough tier",
+      text="Generated-input search for totality: every byte prefix of the repository's 86 test modules (size-limited per tier), token-level mutations of them, a parameterised family of pathological modules (nesting depth, argument counts, unterminated strings/comments, cycles among typedefs/groupings/identities/leafrefs/imports/includes, wrong-kind paths, malformed restriction/feature/when arguments), opener faults, and token soup. Each load must return a module or an error; a returned module is walked through every public accessor. Workers journal each case so a fatal error or hang is attributed and confirmed in a fresh process.",
+      note="A hang is a case that does not finish in 15 s alone in a fresh process (normal cases take < 5 ms). The walk covers the compiled schema tree, typedefs, identities, features, extensions; raw grouping/augment templates and the library's schema browser are not walked (see DESIGN.md Corrections).", ref="7 C14")
 NOT_YET = {}
 props = [json.loads(l) for l in open(os.path.join(ROOT, "properties.jsonl"))]
 checks, na = [], []
